@@ -872,7 +872,7 @@ PROPS["C20"] = dict(
 )
 
 PROPS["C16"] = dict(
-    lean_targets=["SJ.Props.C16", "SJ.Props.C16Float", "SJ.Props.Typed", "SJ.Audit.C16"],
+    lean_targets=["SJ.Props.C16", "SJ.Props.C16Float", "SJ.Props.C16Ap", "SJ.Props.C16ApFloat", "SJ.Props.Typed", "SJ.Audit.C16"],
     configs=dict(quick=["d", "fr"], thorough=["d", "fr", "po", "ap"]),
     gen_keys=["fromvalue."],
     rule="(schema, value) pairs for the universal DeserializeSeed of harness/src/schema.rs, each run through from_value (Value by value), "
@@ -944,17 +944,32 @@ PROPS["C16"] = dict(
              "visit_unit, the text deserializer reads []) and stated for both models as a kernel-checked example — the three paths "
              "disagree, which is exactly the case the STATEMENT names as outside the claim ('zero-length tuple variants ... accepted "
              "from text only'), so it is no finding and the oracle keeps skipping it; zero-length tuples / tuple structs (T0;) are "
-             "inside claim and theorem (all three accept [] only). Missing: arbitrary_precision — a Value then holds number LITERALS "
-             "(any RFC 8259 spelling) and from_value converts them with str::parse (rustParseInt / rustParseF64: correctly rounded, "
-             "saturating), while the text side is unchanged (c20_typed_same); what a proof needs beyond the present one: the leaf "
-             "lemmas for an arbitrary literal (deNumber_lit exists) against rustParseInt / rustParseF64 — integer targets agree "
-             "except the literal -0 (open finding C16-ap-negative-zero), f64 targets agree when the configured conversion is "
-             "correctly rounded on the literal (float_roundtrip: C07; otherwise a named hypothesis like FloatsRoundTrip) and the "
-             "literal is in range (open finding C16-ap-non-finite-f64), Value targets differ on -0 and Display-form literals (open "
-             "findings) — and VOK / HeadOf extended to literals. For it the "
-             "three-way agreement is carried by the correspondence run: the executable specification compares the three REAL "
-             "outcomes on every generated pair and the driver's third model field is computed by the typed model from the text "
-             "(0 disagreements outside the three open ap findings). Observation outside the claim (f32 targets are excluded by the statement): under float_roundtrip "
+             "inside claim and theorem (all three accept [] only). arbitrary_precision (c16_text_agrees_ap_partial, Props/C16Ap.lean): "
+             "a Value then holds number LITERALS in any RFC 8259 spelling, to_string prints them verbatim, from_value converts them "
+             "with str::parse (Number::deserialize_iN = self.n.parse::<iN>(), deserialize_f64 = self.n.parse::<f64>(): "
+             "rustParseInt / rustParseF64, std assumed correctly rounded and saturating) and the text path runs the JSON number "
+             "scanner on the same bytes (it does not consult the feature outside Value targets: c20_typed_same). Proved for every "
+             "schema of the same fragment (Value targets included) and every value of an arbitrary_precision build, outside THREE "
+             "exclusions that correspond one to one to the three open findings, each tested schema-directed (Schema.allPos, "
+             "Spec/SchemaAp.lean: wherever a leaf target meets a value on the way the deserializers visit the pair) and each shown "
+             "necessary by a kernel-checked instance of both models: (a) apNegZero - a signed 8-64-bit integer target meets the "
+             "literal -0 (C16-ap-negative-zero: \"-0\".parse::<i8>() = Ok(0), the scanner yields the float -0.0; unsigned, 128-bit and "
+             "f64 targets on -0 are inside the theorem); (b) apNonFinite - an f64 target meets a literal whose nearest binary64 is "
+             "not finite (C16-ap-non-finite-f64: parse saturates to inf, the scanner answers number out of range); (c) apAnyMoved - "
+             "a Value target meets a value with a literal that Number::deserialize_any re-renders (-0 through as_i64, and a literal "
+             "equal to f64::to_string of its value but not to ryu's spelling through the as_f64 shortcut: C16-ap-negative-zero second "
+             "half, C16-ap-display-form; what ryu / Display print is the Ext parameter). One hypothesis, not an exclusion: apAccurate - "
+             "wherever an f64 target meets a literal of finite range the JSON number conversion of the build returns the binary64 "
+             "nearest to the exact value (the statement's 'float_roundtrip or short float literals'); discharged under "
+             "float_roundtrip from C07 for literals shorter than 2^29 - 20 bytes whose exponent digits pass de.rs's i32 guard "
+             "(c16_ap_accurate_fr, c16_text_agrees_ap_fr); in the default build it stays a hypothesis (true of short literals by "
+             "C08's c08_exact_short, not assembled; 1,723 of 31,342 quick ap cases with an f64 target on a literal violate it and "
+             "are compared on success / failure only). A literal with a fraction or an exponent under a 128-bit integer target is "
+             "refused by the caller of scan_integer128 as without the feature (Agree1w). The executable statement of op c16 in the "
+             "ap configuration applies exactly these exclusions (c16_ap_oracle_domain: Model.FromValue.c16ApExcluded = the three "
+             "tests) and reports a failure inside the theorem's domain under a message no known finding matches: 421,842 of 425,930 "
+             "quick ap c16 pairs are inside (3,513 statement-excluded, 575 in the findings, 477 of which disagree), 0 failures. The "
+             "Observation outside the claim (f32 targets are excluded by the statement): under float_roundtrip "
              "from_value::<f32>(1.0000000596046448) = 0x3f800000 (f64 -> f32 cast, ties to even) while "
              "from_str::<f32>(\"1.0000000596046448\") = 0x3f800001 (parsed straight to f32) — c16 d g d3ff0000010000000 in the fr "
              "build; in the default build the three agree",
@@ -982,14 +997,19 @@ PROPS["C16"] = dict(
                "included under the float hypothesis FloatsRoundTrip — c16_text_agrees_fr: from RyuShortest under float_roundtrip —, "
                "floats under 128-bit integer targets included (refused by the caller of scan_integer128), the exclusion 'struct "
                "variant written as an array' schema-directed: strings, "
-               "maps with every key kind, structs, enums, IgnoredAny and nested Value included; missing only arbitrary_precision). The typed model is compared with the "
+               "maps with every key kind, structs, enums, IgnoredAny and nested Value included), and under arbitrary_precision "
+               "c16_text_agrees_ap_partial / c16_text_agrees_ap_fr (values holding number literals in any spelling, from_value by "
+               "str::parse against the JSON scanner: agreement outside three exclusions = the three open findings, each necessary "
+               "by a kernel-checked instance; float hypothesis discharged from C07 under float_roundtrip) with c16_ap_oracle_domain "
+               "(the ap oracle applies exactly those exclusions). The typed model is compared with the "
                "crate on every C16 pair's text and on ~200k (schema, text) cases per configuration incl. mutated texts, with message, "
                "category, line and column (0 disagreements).",
     level_note="Trusted: Lean kernel + propext/Classical.choice/Quot.sound; harness/driver comparison; the universal seed and serde's visitors "
                "as transcribed; std parse/cast and ryu/Display as parameters; the hand-written typed text model (validated by "
-               "correspondence). Partial: the text leg of the three-way theorem is proved for every build without arbitrary_precision "
-               "and covered by correspondence under it. Open findings (arbitrary_precision only): literal -0, "
-               "non-finite literals into f64, Display-form literals into Value.",
+               "correspondence); str::parse::<f64> assumed correctly rounded (std's contract). Partial: under arbitrary_precision the "
+               "text leg is proved outside the three open findings (literal -0 into i8..i64 and into Value, non-finite literals "
+               "into f64, Display-form literals into Value), where the claim is false; the f64 comparison assumes a correctly "
+               "rounded JSON conversion (proved under float_roundtrip, a hypothesis in the default build).",
 )
 
 PROPS["C15"] = dict(
@@ -1509,6 +1529,10 @@ _add("C16", "partial", [
     "generated by op c16x)",
     "both legs compare success / failure and the value; error messages are not compared",
     "c16_agree_partial restates c16_owned_borrowed",
+    "arbitrary_precision: c16_text_agrees_ap_partial excludes exactly the three open ap findings (no theorem can cover them: the claim is "
+    "false there, kernel-checked) and carries the float hypothesis apAccurate, discharged only under float_roundtrip (C07, literals "
+    "below 2^29 - 20 bytes with the exponent digits inside de.rs's i32 guard); str::parse::<f64> is std's and ASSUMED correctly rounded "
+    "(false for texts above ~655 KB: finding C20-as-f64-exponent-saturation); the ap configuration is part of the thorough tier only",
 ])
 
 # ---- gaps of the honesty pass closed by theorems (branch wip-c11b): C11 converse of eof_at_end, grammar reading without SideOK,
